@@ -18,6 +18,10 @@ def run(ctx, rep):
         rt.rule_is_boundary(rep, crate, cfg)
         rt.rule_frames(rep, crate, cfg)
     rep.analysed['configs'] = cfgs
+    # the callback and the variant kind a definition was given reach the generator unchanged
+    from props import cg
+    cg.rule_leaf_writers(rep, ctx.mir('ws-default')['logos_codegen'])
+    cg.rule_sites(rep, ctx.mir('ws-default')['logos_codegen'], want=('C10',))
     rt.rt_controls(rep, ctx, ['M-C13a'])
     rep.trusted += ['rustc nightly MIR construction', 'engines/mirfacts']
     rep.assumptions += ['user callbacks are pure functions of the matched text (the property\'s quantifier)']
